@@ -1,6 +1,8 @@
 import FimVerif.Proofs.Lemmas.TopoAtomicFac
 import FimVerif.Proofs.Lemmas.TopoAtomicDetach
 import FimVerif.Proofs.Lemmas.TopoAtomicPeer
+import FimVerif.Proofs.Lemmas.TopoAtomicCompRb
+import FimVerif.Model.TopoC09
 /-!
 # C09 — a topology-building call that raises leaves the model unchanged
 
@@ -11,11 +13,11 @@ raises returns none and the caller's cache is untouched by construction; the uui
 Full statement (for every building call `op`, every state): `Atomic op`.
 `atomic_op` (22 request kinds, `Topo.TopoOp`) and `atomic_xop` (6 more, `Topo.XOp`: sub-interfaces, peer/unpeer, port mirror,
 `model_type=` components) prove it for every call under explicit decidable hypotheses on the state (`Covered` / `CoveredX`):
-distinct ids, no dangling edge, fresh uuids, and for the removals the shape facts `RemoveHyp`.  The one call left outside is
-`add_component` with caller-supplied ids for its service / interfaces: the code creates the Component and then fails on a
-taken id with no clean-up (known finding, `addComponent_counterexample`, replayed on the implementation by the oracle).
+distinct ids, no dangling edge, fresh uuids, and for the removals the shape facts `RemoveHyp`.  No building call is left
+outside: `add_component` with caller-supplied ids for its service / interfaces, which used to create the Component and then
+fail on a taken id with no clean-up, is covered since commit e285d22 (`atomic_addComponent`).
 Several proofs exist only because the code was repaired on the way (rollback on any exception, validate-before-create,
-composite try/except, peer clean-up, disconnect loop skipping removed interfaces): each repaired idiom is a generated flag
+composite try/except, peer clean-up, component clean-up, disconnect loop skipping removed interfaces): each repaired idiom is a generated flag
 (`Gen.Rules.*`), so reverting the repair flips the model and breaks the proof.
 -/
 namespace FimVerif.C09
@@ -186,9 +188,27 @@ example : let s : Topo := ⟨[⟨.connectionPoint, .user "i1", "i1", "DedicatedP
   · trivial
 
 
-/-! ## components (experiment flavour: the ids of the component's network service and interfaces are generated) -/
+/-! ## components: the Component node, then the catalogue's network service and its interfaces, the latter inside the
+`try … except Exception: remove the component with everything under it; raise` of `add_component_sliver` (commit e285d22).
+Whichever `add_node` of the expansion finds its id taken - the service's, the k-th interface's, one repeated inside the call,
+caller-supplied or not - the partial construct is `comp0` / `comp1` and the clean-up returns exactly `s`
+(`removeCompGraph_comp0`, `removeCompGraph_comp1`). -/
 
 theorem atomic_addComponent (fl : Flavour) (c : Nat) (parent : Nid) (a : CompArgs) (s : Topo)
+    (hd : IdsDistinct s) (hc : Closed s)
+    (hf : failed (addComponent fl c parent a s)) : (addComponent fl c parent a s).2 = s := by
+  unfold addComponent at hf ⊢
+  revert hf
+  refine ro_step (Q := FS s) (by ro) FS.err (fun _ hch => ?_)
+  refine ro_step (Q := FS s) (by ro) FS.err (fun _ _ => ?_)
+  obtain ⟨p, hp, hcls⟩ := childrenOf_parent hch
+  refine compNew_fs_rb flag_componentRollback fl c parent a s hd hc (fun m hm hmi => ?_)
+  rw [handle_cls_of_findNode hd hp m hm hmi]
+  intro e; rw [e] at hcls; simp at hcls
+
+/-- the same call when the ids of the component's service and interfaces are generated by the library: atomic in every
+state (no invariant needed), given that the uuids drawn are new - nothing after the Component node can fail -/
+theorem atomic_addComponent_gen (fl : Flavour) (c : Nat) (parent : Nid) (a : CompArgs) (s : Topo)
     (hfresh : ∀ m ∈ s.nodes, ∀ k, c ≤ k → m.nid ≠ .gen k) (hnid : ∀ k, c ≤ k → a.nid ≠ some (.gen k))
     (hgen : a.ifNids = none ∧ a.nsNid = none)
     (hf : failed (addComponent fl c parent a s)) : (addComponent fl c parent a s).2 = s := by
@@ -197,6 +217,13 @@ theorem atomic_addComponent (fl : Flavour) (c : Nat) (parent : Nid) (a : CompArg
   refine ro_step (Q := FS s) (by ro) FS.err (fun _ _ => ?_)
   refine ro_step (Q := FS s) (by ro) FS.err (fun _ _ => ?_)
   exact compNew_atomic fl c parent a s hfresh hnid hgen
+
+/-- non-vacuity of `atomic_addComponent`: a substrate node, and a second SmartNIC whose second interface id is taken
+(the deterministic corpus case `add_component_iface_id_taken`) -/
+example : let s : Topo := ⟨[⟨.networkNode, .user "n1", "n1", "Server", []⟩, ⟨.connectionPoint, .user "x1", "old", "TrunkPort", []⟩], []⟩
+    IdsDistinct s ∧ Closed s ∧ failed (addComponent .substrate 0 (.user "n1")
+      ⟨"nic", some (.user "c1"), some "SmartNIC", some "ConnectX-6", some (.user "ns1"), some [.user "i1", .user "x1"], some 2, []⟩ s) := by
+  decide
 
 theorem atomic_addStorage (fl : Flavour) (c : Nat) (parent : Nid) (name : String) (nid : Option Nid) (props : List PropArg)
     (s : Topo) (hfresh : ∀ m ∈ s.nodes, ∀ k, c ≤ k → m.nid ≠ .gen k) (hnid : ∀ k, c ≤ k → nid ≠ some (.gen k))
@@ -301,9 +328,7 @@ example : RemoveHyp ⟨[⟨.networkNode, .user "n", "n", "VM", []⟩, ⟨.compon
 
 /-! ## one theorem over the op alphabet
 
-`Covered op s` is the explicit guard: per call, the hypotheses on the state and the arguments its proof uses.  Only
-`addComponent` with caller-supplied ids for its network service / interfaces is excluded (false when they collide - known
-finding, see `addComponent_counterexample`). -/
+`Covered op s` is the explicit guard: per call, the hypotheses on the state and the arguments its proof uses. -/
 
 def FreshArgs (c : Nat) (s : Topo) (nid : Option Nid) : Prop :=
   (∀ m ∈ s.nodes, ∀ k, c ≤ k → m.nid ≠ .gen k) ∧ (∀ k, c ≤ k → nid ≠ some (.gen k))
@@ -321,7 +346,7 @@ def Covered : TopoOp → Topo → Prop
       (∀ m ∈ s.nodes, m.nid ≠ .gen c ∧ m.nid ≠ .gen (c + 1))
   | .disconnect _ _, s => IdsDistinct s
   | .nsRemoveInterface _ _ _, s => IdsDistinct s
-  | .addComponent _ c _ a, s => FreshArgs c s a.nid ∧ a.ifNids = none ∧ a.nsNid = none
+  | .addComponent _ _ _ _, s => IdsDistinct s ∧ Closed s
   | .addStorage _ c _ _ nid _, s => FreshArgs c s nid
   | .addService _ c a, s => IdsDistinct s ∧ Closed s ∧ FreshArgs c s a.nid ∧ IfsAll s (pick a.nid c).1 c a.ifs
   | .nodeAddService _ c _ a, s => IdsDistinct s ∧ Closed s ∧ FreshArgs c s a.nid ∧ IfsAll s (pick a.nid c).1 c a.ifs
@@ -359,9 +384,7 @@ theorem atomic_op (op : TopoOp) (s : Topo) (hcov : Covered op s) (hf : failed (s
   | nodeAddService fl c p a =>
     obtain ⟨h1, h2, ⟨h3, h4⟩, h5⟩ := hcov
     exact FS_bind_pure (atomic_nodeAddService fl c p a s h1 h2 h3 h4 h5)
-  | addComponent fl c p a =>
-    obtain ⟨⟨h1, h2⟩, h3⟩ := hcov
-    exact FS_bind_pure (atomic_addComponent fl c p a s h1 h2 h3)
+  | addComponent fl c p a => exact FS_bind_pure (atomic_addComponent fl c p a s hcov.1 hcov.2)
   | addStorage fl c p n i pr =>
     obtain ⟨h1, h2⟩ := hcov
     exact FS_bind_pure (atomic_addStorage fl c p n i pr s h1 h2)
@@ -412,16 +435,18 @@ theorem atomic_addPortMirror (fl : Flavour) (c : Nat) (a : SvcArgs) (toOk fromOk
   refine ro_step (Q := FS s) (by ro) FS.err (fun _ _ => ?_)
   exact svcNew_atomic fl c none a s hd hc hfresh hnid (fun _ h => by cases h) hifs
 
-/-- `add_component(model_type=…)` with library-generated ids for the component's service and interfaces -/
+/-- `add_component(model_type=…)`, caller-supplied ids for the component's service and interfaces included -/
 theorem atomic_addComponentMT (fl : Flavour) (c : Nat) (parent : Nid) (a : CompArgs) (mt : String × String) (s : Topo)
-    (hfresh : ∀ m ∈ s.nodes, ∀ k, c ≤ k → m.nid ≠ .gen k) (hnid : ∀ k, c ≤ k → a.nid ≠ some (.gen k))
-    (hgen : a.ifNids = none ∧ a.nsNid = none)
+    (hd : IdsDistinct s) (hc : Closed s)
     (hf : failed (addComponentMT fl c parent a mt s)) : (addComponentMT fl c parent a mt s).2 = s := by
   unfold addComponentMT at hf ⊢
   revert hf
+  refine ro_step (Q := FS s) (by ro) FS.err (fun _ hch => ?_)
   refine ro_step (Q := FS s) (by ro) FS.err (fun _ _ => ?_)
-  refine ro_step (Q := FS s) (by ro) FS.err (fun _ _ => ?_)
-  exact compNewMT_atomic fl c parent a mt s hfresh hnid hgen
+  obtain ⟨p, hp, hcls⟩ := childrenOf_parent hch
+  refine compNewMT_fs_rb flag_componentRollback fl c parent a mt s hd hc (fun m hm hmi => ?_)
+  rw [handle_cls_of_findNode hd hp m hm hmi]
+  intro e; rw [e] at hcls; simp at hcls
 
 /-- `Interface.remove_child_interface` (the child is not itself a ServicePort): disconnect, then `remove_cp_and_links` -/
 theorem atomic_removeChildInterface (port : Nid) (cache : Cache) (name : String) (s : Topo) (h : DetachHyp s)
@@ -452,7 +477,7 @@ theorem atomic_unpeer (cache : Cache) (other : Option SvcHandle) (s : Topo) (hd 
 def CoveredX : XOp → Topo → Prop
   | .addChildInterface _ _ _ _ _ _ _ _ _, _ => True
   | .addPortMirror _ c a _ _, s => IdsDistinct s ∧ Closed s ∧ FreshArgs c s a.nid ∧ IfsAll s (pick a.nid c).1 c a.ifs
-  | .addComponentMT _ c _ a _, s => FreshArgs c s a.nid ∧ a.ifNids = none ∧ a.nsNid = none
+  | .addComponentMT _ _ _ _ _, s => IdsDistinct s ∧ Closed s
   | .removeChildInterface _ _ name, s =>
       DetachHyp s ∧ ∀ m ∈ s.nodes, m.name = name → m.cls = .connectionPoint → m.typ ≠ "ServicePort"
   | .peer _ c svc _ _ other _, s =>
@@ -468,27 +493,172 @@ theorem atomic_xop (op : XOp) (s : Topo) (hcov : CoveredX op s) (hf : failed (st
   | addPortMirror fl c a t f =>
     obtain ⟨h1, h2, ⟨h3, h4⟩, h5⟩ := hcov
     exact FS_bind_pure (atomic_addPortMirror fl c a t f s h1 h2 h3 h4 h5)
-  | addComponentMT fl c p a mt =>
-    obtain ⟨⟨h1, h2⟩, h3⟩ := hcov
-    exact FS_bind_pure (atomic_addComponentMT fl c p a mt s h1 h2 h3)
+  | addComponentMT fl c p a mt => exact FS_bind_pure (atomic_addComponentMT fl c p a mt s hcov.1 hcov.2)
   | removeChildInterface p ca n => exact FS_bind_pure (atomic_removeChildInterface p ca n s hcov.1 hcov.2)
   | peer fl c svc sn ca o pr => exact FS_bind_pure (atomic_peer fl c svc sn ca o pr s hcov.1 hcov.2.1 hcov.2.2.1 hcov.2.2.2)
   | unpeer ca o => exact FS_bind_pure (atomic_unpeer ca o s hcov.1 hcov.2)
   | prune _ _ _ _ => exact hcov.elim
 
 
-/-! ## the known finding behind the exclusion of `addComponent`
+/-! ## the third alphabet (`Topo.YOp`, Model/TopoC09.lean) -/
 
-Substrate `add_component` with caller-supplied interface ids of which the second is already in the graph: the call
-raises (`query`) after the Component, its NetworkService and the first interface were created. -/
+/-- `update_labels` / `update_capacities`: the read, the merge (a bad field among good ones, at any position) and the sliver's
+validation all come before the one graph write -/
+theorem atomic_updateCaplab (nid : Nid) (arg : PropArg) : Atomic (updateCaplab nid arg) := by
+  unfold updateCaplab
+  exact Atomic.bind_readOnly (by ro) (fun _ => atomic_setProps _ _)
 
-def cexState : Topo :=
-  ⟨[⟨.networkNode, .user "n1", "n1", "Server", []⟩, ⟨.connectionPoint, .user "x1", "old", "TrunkPort", []⟩], []⟩
-def cexOp : TopoOp :=
-  .addComponent .substrate 0 (.user "n1")
-    ⟨"nic", some (.user "c1"), some "SmartNIC", some "ConnectX-6", some (.user "ns1"), some [.user "i1", .user "x1"], some 2, []⟩
+theorem atomic_yop (op : YOp) (s : Topo) (hf : failed (stepY op s)) : (stepY op s).2 = s := by
+  revert hf
+  cases op with
+  | updateCaplab n a => exact FS_bind_pure (fs_of_atomic (atomic_updateCaplab n a) s)
 
-theorem addComponent_counterexample :
-    failed (step cexOp cexState) ∧ (step cexOp cexState).2 ≠ cexState ∧ (step cexOp cexState).2.nodes.length = 5 := by decide
+
+/-! ## histories: every call runs in the state the previous one left, whether it returned or raised
+
+`runAny ops s` is the model after a whole history over the three alphabets.  `CoveredAll ops s` asks the guard of
+`atomic_op` / `atomic_xop` of exactly the calls that raise, in the state they are made in.  Then
+
+* `history_atomic`: at every position of every history, a call that raises leaves the model as it was;
+* `history_erasure`: the history builds the same model as the history with the failing calls erased - injected faults, at
+  any positions and in any number, are invisible in the result;
+* `history_all_failed`: a history of failing calls only leaves the model it started from. -/
+
+def CoveredAny : AnyOp → Topo → Prop
+  | .t o, s => Covered o s
+  | .x o, s => CoveredX o s
+  | .y _, _ => True
+
+theorem errB_iff {α : Type} (r : Except Err α × Topo) : errB r = true ↔ failed r := by
+  unfold errB failed
+  rcases r with ⟨a | b, t⟩ <;> simp
+
+/-- one call of any alphabet: a raise leaves the model unchanged -/
+theorem atomic_any (op : AnyOp) (s : Topo) (hc : CoveredAny op s) (hf : (stepAny op s).1 = true) : (stepAny op s).2 = s := by
+  cases op with
+  | t o => exact atomic_op o s hc ((errB_iff _).mp hf)
+  | x o => exact atomic_xop o s hc ((errB_iff _).mp hf)
+  | y o => exact atomic_yop o s ((errB_iff _).mp hf)
+
+/-- the guards of the failing calls of a history, each in the state its call is made in -/
+def CoveredAll : List AnyOp → Topo → Prop
+  | [], _ => True
+  | op :: rest, s => ((stepAny op s).1 = true → CoveredAny op s) ∧ CoveredAll rest (stepAny op s).2
+
+theorem history_atomic (ops : List AnyOp) : ∀ (s : Topo), CoveredAll ops s →
+    ∀ (i : Nat) (op : AnyOp) (t : Topo), ops[i]? = some op → (statesAny ops s)[i]? = some t →
+      (stepAny op t).1 = true → (stepAny op t).2 = t := by
+  induction ops with
+  | nil => intro s _ i op t h; simp at h
+  | cons o rest ih =>
+    intro s hc i op t hop hst hf
+    cases i with
+    | zero =>
+      simp only [List.getElem?_cons_zero, Option.some.injEq, statesAny] at hop hst
+      subst hop; subst hst
+      exact atomic_any _ _ (hc.1 hf) hf
+    | succ j =>
+      simp only [List.getElem?_cons_succ, statesAny] at hop hst
+      exact ih _ hc.2 j op t hop hst hf
+
+theorem history_erasure (ops : List AnyOp) : ∀ (s : Topo), CoveredAll ops s → runAny ops s = runAny (okOps ops s) s := by
+  induction ops with
+  | nil => intro s _; rfl
+  | cons o rest ih =>
+    intro s hc
+    by_cases hf : (stepAny o s).1 = true
+    · have hs := atomic_any o s (hc.1 hf) hf
+      simp only [runAny, okOps, hf, if_true]
+      have := ih _ hc.2
+      rw [hs] at this ⊢
+      exact this
+    · simp only [runAny, okOps, hf]
+      exact ih _ hc.2
+
+/-- what is left of a history after erasure are calls that return, each in the state the erased history reaches -/
+theorem okOps_all_ok (ops : List AnyOp) : ∀ (s : Topo), CoveredAll ops s →
+    ∀ (i : Nat) (op : AnyOp) (t : Topo), (okOps ops s)[i]? = some op → (statesAny (okOps ops s) s)[i]? = some t →
+      (stepAny op t).1 = false := by
+  induction ops with
+  | nil => intro s _ i op t h; simp [okOps] at h
+  | cons o rest ih =>
+    intro s hc i op t hop hst
+    by_cases hf : (stepAny o s).1 = true
+    · have hs := atomic_any o s (hc.1 hf) hf
+      simp only [okOps, hf, if_true] at hop hst
+      rw [hs] at hop hst
+      have hc2 := hc.2
+      rw [hs] at hc2
+      exact ih s hc2 i op t hop hst
+    · have hfb : (stepAny o s).1 = false := by simpa using hf
+      simp only [okOps, hfb, Bool.false_eq_true, if_false] at hop hst
+      cases i with
+      | zero =>
+        simp only [List.getElem?_cons_zero, Option.some.injEq, statesAny] at hop hst
+        subst hop; subst hst
+        exact hfb
+      | succ j =>
+        simp only [List.getElem?_cons_succ, statesAny] at hop hst
+        exact ih _ hc.2 j op t hop hst
+
+theorem history_all_failed (ops : List AnyOp) : ∀ (s : Topo), CoveredAll ops s →
+    (∀ (i : Nat) (op : AnyOp) (t : Topo), ops[i]? = some op → (statesAny ops s)[i]? = some t → (stepAny op t).1 = true) →
+    runAny ops s = s := by
+  induction ops with
+  | nil => intro s _ _; rfl
+  | cons o rest ih =>
+    intro s hc hall
+    have hf : (stepAny o s).1 = true := hall 0 o s (by simp) (by simp [statesAny])
+    have hs := atomic_any o s (hc.1 hf) hf
+    simp only [runAny]
+    have hc2 := hc.2
+    rw [hs] at hc2 ⊢
+    refine ih s hc2 (fun i op t hop hst => ?_)
+    refine hall (i + 1) op t (by simpa using hop) ?_
+    simp only [statesAny, List.getElem?_cons_succ]
+    rw [hs]; exact hst
+
+/-- non-vacuity: a history of two calls, the second of which raises (duplicate node name), satisfies `CoveredAll` -/
+example : CoveredAll [.t (.addNode .experiment 0 ⟨"n1", none, some "RENC", some "VM", []⟩),
+                      .t (.addNode .experiment 1 ⟨"n1", none, some "RENC", some "VM", []⟩)] Topo.empty ∧
+    (stepAny (.t (.addNode .experiment 1 ⟨"n1", none, some "RENC", some "VM", []⟩))
+      (stepAny (.t (.addNode .experiment 0 ⟨"n1", none, some "RENC", some "VM", []⟩)) Topo.empty).2).1 = true := by
+  refine ⟨⟨fun _ => trivial, fun _ => trivial, trivial⟩, by decide⟩
+
+/-! ## the known finding behind the hypothesis `SpPeer1` of the removals
+
+`Topology.add_link` accepts a ServicePort of another service next to an interface that is already connected; the interface
+then has two ServicePort peers, which `Topology._disconnect_interfaces` reports as a model error - after it has already
+disconnected the interfaces it visited before.  Witness: node `n1` with a SmartNIC whose two ports are connected to service
+`sA`; port `i2` is also linked to the ServicePort `bx` of service `sB`.  `remove_node('n1')` disconnects `i1` (its
+ServicePort and link are gone) and raises at `i2`.  The same holds for every caller of `_disconnect_interfaces`
+(remove_facility / remove_switch / remove_component / remove_network_service / prune); replayed on the implementation by the
+oracle's `multi-sp-peer/*` cases. -/
+
+def mpState : Topo :=
+  ⟨[⟨.networkNode, .user "n1", "n1", "VM", []⟩, ⟨.component, .user "c1", "nic1", "SmartNIC", []⟩,
+    ⟨.networkService, .user "cs", "n1-nic1-l2ovs", "OVS", []⟩,
+    ⟨.connectionPoint, .user "i1", "nic1-p1", "DedicatedPort", []⟩, ⟨.connectionPoint, .user "i2", "nic1-p2", "DedicatedPort", []⟩,
+    ⟨.networkService, .user "sA", "sa", "L2Bridge", []⟩,
+    ⟨.connectionPoint, .user "a1", "n1-nic1-p1", "ServicePort", []⟩, ⟨.link, .user "la1", "n1-nic1-p1-link", "Patch", []⟩,
+    ⟨.connectionPoint, .user "a2", "n1-nic1-p2", "ServicePort", []⟩, ⟨.link, .user "la2", "n1-nic1-p2-link", "Patch", []⟩,
+    ⟨.networkService, .user "sB", "sb", "L2Bridge", []⟩, ⟨.connectionPoint, .user "bx", "bx", "ServicePort", []⟩,
+    ⟨.link, .user "lx", "lx", "L2Path", []⟩],
+   [⟨⟨.networkNode, .user "n1"⟩, ⟨.component, .user "c1"⟩, .has⟩, ⟨⟨.component, .user "c1"⟩, ⟨.networkService, .user "cs"⟩, .has⟩,
+    ⟨⟨.networkService, .user "cs"⟩, ⟨.connectionPoint, .user "i1"⟩, .connects⟩,
+    ⟨⟨.networkService, .user "cs"⟩, ⟨.connectionPoint, .user "i2"⟩, .connects⟩,
+    ⟨⟨.networkService, .user "sA"⟩, ⟨.connectionPoint, .user "a1"⟩, .connects⟩,
+    ⟨⟨.link, .user "la1"⟩, ⟨.connectionPoint, .user "i1"⟩, .connects⟩, ⟨⟨.link, .user "la1"⟩, ⟨.connectionPoint, .user "a1"⟩, .connects⟩,
+    ⟨⟨.networkService, .user "sA"⟩, ⟨.connectionPoint, .user "a2"⟩, .connects⟩,
+    ⟨⟨.link, .user "la2"⟩, ⟨.connectionPoint, .user "i2"⟩, .connects⟩, ⟨⟨.link, .user "la2"⟩, ⟨.connectionPoint, .user "a2"⟩, .connects⟩,
+    ⟨⟨.networkService, .user "sB"⟩, ⟨.connectionPoint, .user "bx"⟩, .connects⟩,
+    ⟨⟨.link, .user "lx"⟩, ⟨.connectionPoint, .user "i2"⟩, .connects⟩, ⟨⟨.link, .user "lx"⟩, ⟨.connectionPoint, .user "bx"⟩, .connects⟩]⟩
+
+/-- full statement `∀ s, failed (removeNode n s) → (removeNode n s).2 = s` fails in this reachable state: the state is well
+formed (distinct ids, no dangling edge), it is outside `RemoveHyp` (an interface with two ServicePort peers), the call raises
+and two elements (the ServicePort of `i1` and its link) are gone -/
+theorem removeNode_multipeer_counterexample :
+    IdsDistinct mpState ∧ Closed mpState ∧ ¬ RemoveHyp mpState ∧ failed (step (.removeNode "n1") mpState) ∧
+      (step (.removeNode "n1") mpState).2 ≠ mpState ∧ (step (.removeNode "n1") mpState).2.nodes.length = 11 := by decide
 
 end FimVerif.C09
